@@ -111,9 +111,9 @@ def plainPool (olds : Array (List Byte)) : Pool :=
     read := fun f off len => .ok (((olds.getD f []).drop off).take len)
     flen := fun f => .ok (olds.getD f []).length }
 
-/-- index check of `container.Files[i]` for an int64 index. -/
+/-- bounds check of a file index taken from a message: out of range is a corrupted patch (an error). -/
 def idx (n : Nat) (i : Int) (site : String) : Outcome Nat :=
-  if 0 ≤ i ∧ i < n then .ok i.toNat else .panic s!"index out of range at {site}"
+  if 0 ≤ i ∧ i < n then .ok i.toNat else .err s!"corrupted patch: file index out of range at {site}"
 
 inductive BowlCall where
   | getWriter (i : Nat)
@@ -134,19 +134,40 @@ structure Res where
   reads : List Nat := []               -- old files opened through the pool
   deriving Repr
 
-/-- `skipFile`: read frames as SyncOps until one has type HEY_YOU_DID_IT. -/
-def skipFile : List WMsg → Outcome (List WMsg)
+/-- read frames as SyncOps until one has type HEY_YOU_DID_IT (`skipFile` for an rsync series,
+    `readUntilEndMarker` after a transposition). -/
+def skipOps : List WMsg → Outcome (List WMsg)
   | [] => .err "EOF while skipping"
-  | m :: rest => if (asSyncOp m).type = heyYouDidIt then .ok rest else skipFile rest
+  | m :: rest => if (asSyncOp m).type = heyYouDidIt then .ok rest else skipOps rest
+
+/-- read frames as Controls until one has `eof` set. -/
+def skipCtrls : List WMsg → Outcome (List WMsg)
+  | [] => .err "EOF while skipping"
+  | m :: rest => if (asControl m).eof then .ok rest else skipCtrls rest
+
+/-- `skipFile`: an rsync series is read as SyncOps up to the end marker; a bsdiff series as
+    BsdiffHeader, Controls up to eof, then the sentinel SyncOp. -/
+def skipFile (kind : Int) (msgs : List WMsg) : Outcome (List WMsg) :=
+  if kind = kindBsdiff then
+    match msgs with
+    | [] => .err "EOF while skipping"
+    | _ :: rest =>
+      (skipCtrls rest).bind fun rest' =>
+        match rest' with
+        | [] => .err "EOF while skipping"
+        | sm :: rest'' =>
+          if (asSyncOp sm).type ≠ heyYouDidIt then .err "expected sentinel SyncOp after bsdiff series" else .ok rest''
+  else skipOps msgs
 
 /-- `isFullFileOp`. -/
 def isFullFileOp (E : Env) (i : Nat) (op : SyncOp) : Outcome (Option Nat) :=
   if op.type ≠ opBlockRange then .ok none
   else if op.blockIndex ≠ 0 then .ok none
-  else do
-    let t ← idx E.oldSizes.size op.fileIndex "isFullFileOp targetContainer.Files[op.FileIndex]"
-    if E.oldSizes.getD t 0 ≠ E.newSizes.getD i 0 then return none
-    if op.blockSpan = (Rsync.numBlocks E.bs (E.newSizes.getD i 0) : Int) then return some t else return none
+  else if ¬ (0 ≤ op.fileIndex ∧ op.fileIndex < E.oldSizes.size) then .ok none   -- invalid op: rejected when applied
+  else
+    let t := op.fileIndex.toNat
+    if E.oldSizes.getD t 0 ≠ E.newSizes.getD i 0 then .ok none
+    else if op.blockSpan = (Rsync.numBlocks E.bs (E.newSizes.getD i 0) : Int) then .ok (some t) else .ok none
 
 /-- `ApplySingleFull` for one decoded op appended to the writer's content. -/
 def applyOp (E : Env) (op : SyncOp) (w : List Byte) (reads : List Nat) : Outcome (List Byte × List Nat) :=
@@ -190,7 +211,7 @@ def applyControl (E : Env) (t : Nat) (flen : Nat) (c : Control) (oldOffset : Int
       match E.pool.read t oldOffset.toNat n with
       | .ok bytes =>
         if bytes.length ≠ n then .err "bsdiff-add: short read"
-        else .ok ((List.range n).map fun k => bytes.getD k 0 + c.add.getD k 0)
+        else .ok (List.zipWith (· + ·) bytes c.add)
       | .err e => .err e
       | .panic p => .panic p
     else .ok []) >>= fun added =>
@@ -219,7 +240,7 @@ def processFile (E : Env) (i : Nat) (msgs : List WMsg) (r : Res) : Outcome (List
       let skip := match E.whitelist with
         | some wl => !wl.contains i
         | none => false
-      if skip then (skipFile rest).bind fun rest' => .ok (rest', r)
+      if skip then (skipFile sh.type rest).bind fun rest' => .ok (rest', r)
       else if sh.type = kindRsync then
         match rest with
         | [] => .err "EOF reading first op"
@@ -237,7 +258,7 @@ def processFile (E : Env) (i : Nat) (msgs : List WMsg) (r : Res) : Outcome (List
               | .err e => .err e
               | .panic p => .panic p
               | .ok bytes =>
-                (skipFile rest1).bind fun rest' =>
+                (skipOps rest1).bind fun rest' =>
                   .ok (rest', { out := r.out ++ [(i, bytes)], touched := r.touched + 1,
                                 calls := r.calls ++ [BowlCall.transpose i t], reads := r.reads ++ [t] })
           | none =>
